@@ -140,6 +140,7 @@ class Monitor(object):
                 self.prev_log.pop(n, None)
                 if sim.kill_info.get('in_delete_to'):
                     self.trigger.setdefault('kf_c08_1:%d' % n, self.step)
+                self.check_dump_file(rec, sim, n)      # what the dead process left on disk
                 return
             k = 'tick' if k == 'tickkill' else 'deliver'
             ev = ((k,) + tuple(ev[1:-1]))
@@ -479,7 +480,7 @@ class Monitor(object):
         for e in log:
             if e[1] in ack and ack[e[1]] != e[2]:
                 ack[e[1]] = e[2]
-        if log:
+        if log and not getattr(self, 'in_recovery_step', False):
             for i in [i for i in ack if i > log[-1][1]]:
                 del ack[i]
 
@@ -526,7 +527,12 @@ class Monitor(object):
             self.max_term_seen[nid] = (term, inc)
         if not self.journaled:
             return
+        # the two steps in which a restarted node rebuilds itself from its files: the restart itself (journal read)
+        # and its first tick (dump loaded, journal trimmed or cleared); truncations by a leader in between are legitimate
+        pend = getattr(self, 'pending_recovery', set())
+        self.in_recovery_step = nid in pend and ev[0] in ('restart', 'tick')
         self.note_acks(sim, nid, o)
+        self.in_recovery_step = False
         ack = self.acked.setdefault(nid, {})
         # a node that can never apply again: its journal starts beyond the position it has to apply next
         if ev[0] == 'tick' and log and g(o, 'raftCommitIndex') > g(o, 'raftLastApplied') and \
@@ -538,9 +544,9 @@ class Monitor(object):
         # C09: a dump file is always a complete old or new snapshot
         self.check_dump_file(rec, sim, nid)
         # recovery check: right after the restart (the first tick loads the dump and trims the journal)
-        pend = getattr(self, 'pending_recovery', set())
-        if nid in pend and ev[0] == 'tick':
-            pend.discard(nid)
+        if nid in pend and ev[0] in ('restart', 'tick'):
+            if ev[0] == 'tick':
+                pend.discard(nid)
             base = log[0][1] if log else 0
             lost = [i for i, t in sorted(ack.items()) if i >= base and (self.entry_at(log, i) is None or self.entry_at(log, i)[2] != t)]
             if lost:
